@@ -93,6 +93,61 @@ ViewsOK(c) == \A e \in 1..K(c) :
                                           !.bound = [r \in rvs |-> c.world.bound[r]]]
                  IN WellFormed(w, View(c, e))
 
+-----------------------------------------------------------------------------
+(* Merging two compatible pmappings (C13).  p and q are single-Einsum node     *)
+(* sequences of Einsums 1 and 2 that share tensor sh; cut(x) = position of the *)
+(* outermost holder of sh in x.  Everything up to the cut is prefix, the rest  *)
+(* is the Einsum's branch.  Prefix holders keep their level = number of        *)
+(* multi-iteration loops above them; the merged prefix lists, level by level,  *)
+(* p's holders, q's holders (q's holder of sh and q's holders of tensors that   *)
+(* p already holds at that level are dropped), then the shared loop of that     *)
+(* level in p's order (the pair is compatible, so q has the same loops).       *)
+CutPos(x, sh) == Min({j \in 1..Len(x) : x[j].kind = "S" /\ x[j].t = sh})
+TagAll(seq, b) == [j \in 1..Len(seq) |-> seq[j] @@ [br |-> b]]
+SubSeqSafe(x, a, b) == IF a > b THEN <<>> ELSE SubSeq(x, a, b)
+FilterSeq(x, P(_)) == LET F[k \in 0..Len(x)] == IF k = 0 THEN <<>> ELSE IF P(x[k]) THEN Append(F[k-1], x[k]) ELSE F[k-1]
+                      IN F[Len(x)]
+\* loops of the prefix of x, in order
+PrefLoops(x, sh) == FilterSeq(SubSeqSafe(x, 1, CutPos(x, sh)), LAMBDA n : n.kind = "T")
+\* holders of the prefix of x that have exactly k prefix loops above them
+HoldersAtLevel(x, sh, k) ==
+  LET c == CutPos(x, sh)
+      lvl(j) == Cardinality({a \in 1..(j-1) : x[a].kind = "T"})
+      F[j \in 0..c] == IF j = 0 THEN <<>> ELSE IF x[j].kind = "S" /\ lvl(j) = k THEN Append(F[j-1], x[j]) ELSE F[j-1]
+  IN F[c]
+Merged(p, q, sh) ==
+  LET L == PrefLoops(p, sh)
+      nl == Len(L)
+      pAt(k) == HoldersAtLevel(p, sh, k)
+      qAt(k) == FilterSeq(HoldersAtLevel(q, sh, k),
+                          LAMBDA n : ~ \E a \in 1..Len(pAt(k)) : pAt(k)[a].t = n.t /\ pAt(k)[a].mem = n.mem)
+      Lev[k \in 0..nl] == LET here == TagAll(pAt(k), 0) \o TagAll(qAt(k), 0)
+                           IN IF k = 0 THEN here ELSE Lev[k-1] \o <<L[k] @@ [br |-> 0]>> \o here
+      b1 == TagAll(SubSeqSafe(p, CutPos(p, sh) + 1, Len(p)), 1)
+      b2 == TagAll(SubSeqSafe(q, CutPos(q, sh) + 1, Len(q)), 2)
+  IN Lev[nl] \o b1 \o b2
+
+\* C13 with capacity: exhaustive join of two recorded pmapping tables.  Pairs are compatible when they back the
+\* shared tensor in the same memory under the same (at most one, canonical) shared loop; a pair is valid when the
+\* merged tree's peak fits every finite memory; objectives add.
+JCases == JsonDeserialize(IOEnv.JOIN_FILE)
+LoopSet(x, sh) == {<<PrefLoops(x, sh)[k].rv, PrefLoops(x, sh)[k].tile>> : k \in 1..Len(PrefLoops(x, sh))}
+CompatN(p, q, sh) == /\ p[CutPos(p, sh)].mem = q[CutPos(q, sh)].mem
+                     /\ LoopSet(p, sh) = LoopSet(q, sh)
+                     /\ Len(PrefLoops(p, sh)) <= 1 /\ Len(PrefLoops(q, sh)) <= 1
+FitsJ(jc, a, b) ==
+  LET c == [id |-> "x", world |-> jc.world, nodes |-> Merged(jc.P1[a].nodes, jc.P2[b].nodes, jc.sh)]
+  IN \A m \in DOMAIN jc.world.level : (jc.world.size[m] > 0) => PeakF(c, m) <= jc.world.size[m]
+PairsJ(jc) == {<<a, b>> \in (1..Len(jc.P1)) \X (1..Len(jc.P2)) : CompatN(jc.P1[a].nodes, jc.P2[b].nodes, jc.sh)}
+ValidPairsJ(jc) == {pr \in PairsJ(jc) : FitsJ(jc, pr[1], pr[2])}
+SumJ(a, b) == [k \in 1..Len(a) |-> a[k] + b[k]]
+DomJ(u, v) == (\A k \in 1..Len(u) : u[k] <= v[k]) /\ (\E k \in 1..Len(u) : u[k] < v[k])
+FrontJ(S) == {v \in S : ~ \E u \in S : DomJ(u, v)}
+JoinReport(jc) ==
+  LET VP == ValidPairsJ(jc)
+      J == {SumJ(jc.P1[pr[1]].obj, jc.P2[pr[2]].obj) : pr \in VP}
+  IN [id |-> jc.id, pairs |-> Cardinality(PairsJ(jc)), valid |-> Cardinality(VP), front |-> FrontJ(J)]
+
 VARIABLE i
 \* the execution variables of LoopNest are not used here (definitions only)
 Unused == <<W, nodes, phase, pc, dir, idx, rd, wr, macs, valid, step, since, first, last, live, pts>>
@@ -101,6 +156,13 @@ FInit == /\ i = 1
          /\ macs = 0 /\ valid = <<>> /\ step = 0 /\ since = <<>> /\ first = <<>> /\ last = <<>> /\ live = <<>> /\ pts = <<>>
 FNext == i < Len(FCases) /\ i' = i + 1 /\ UNCHANGED Unused
 FSpec == FInit /\ [][FNext]_<<i, Unused>>
+
+JInit == /\ i = 1
+         /\ W = 0 /\ nodes = <<>> /\ phase = "static" /\ pc = 0 /\ dir = "down" /\ idx = <<>> /\ rd = <<>> /\ wr = <<>>
+         /\ macs = 0 /\ valid = <<>> /\ step = 0 /\ since = <<>> /\ first = <<>> /\ last = <<>> /\ live = <<>> /\ pts = <<>>
+JNext == i < Len(JCases) /\ i' = i + 1 /\ UNCHANGED Unused
+JSpec == JInit /\ [][JNext]_<<i, Unused>>
+JEmit == i <= Len(JCases) => PrintT(ToJson(JoinReport(JCases[i])))
 
 FEmit == i <= Len(FCases) =>
   LET c == FCases[i]
